@@ -24,6 +24,9 @@ func init() {
 
 // evalByteCond evaluates a boolean expression over one byte variable.
 func evalByteCond(info *types.Info, e ast.Expr, v string, b int64) (bool, bool) {
+	if tv, ok := info.Types[e]; ok && tv.Value != nil && tv.Value.Kind() == constant.Bool {
+		return constant.BoolVal(tv.Value), true
+	}
 	switch x := e.(type) {
 	case *ast.ParenExpr:
 		return evalByteCond(info, x.X, v, b)
